@@ -237,12 +237,69 @@ type armEnv struct {
 // cornerArms finds the case analysis on tm.CornerOfOrigin in f: a switch {default: fallthrough; case TopLeft;
 // case BottomLeft} or the equivalent `if corner == BottomLeft {…} else {…}` (any value but BottomLeft means TopLeft).
 // It returns the statement that holds it, the two arms, and a description of the form.
+// cornerHelperBinding: the corner-of-origin decision made in a package helper that is handed the corner: the
+// statement of the addressing function that calls it, the helper's parameters and the call's arguments.
+type cornerHelperBinding struct {
+	call   *ast.CallExpr
+	lhs    []ast.Expr
+	helper *core.Func
+}
+
+var cornerHelpers = map[ast.Stmt]*cornerHelperBinding{}
+
 func cornerArms(c *core.Ctx, f *core.Func) (holder ast.Stmt, topLeft, bottomLeft []ast.Stmt, form string) {
 	info := f.Pkg.TypesInfo
-	isCorner := func(e ast.Expr) bool {
+	isCornerField := func(e ast.Expr) bool {
 		fv := core.FieldOf(info, e)
 		return fv != nil && fv.Name() == "CornerOfOrigin"
 	}
+	holder, topLeft, bottomLeft, form = cornerArmsIn(info, f.Decl.Body.List, isCornerField)
+	if holder != nil {
+		return
+	}
+	// the decision in a helper: lhs… = helper(…, tm.CornerOfOrigin, …)
+	for _, s := range f.Decl.Body.List {
+		var call *ast.CallExpr
+		var lhs []ast.Expr
+		switch st := s.(type) {
+		case *ast.AssignStmt:
+			if len(st.Rhs) == 1 {
+				call, _ = ast.Unparen(st.Rhs[0]).(*ast.CallExpr)
+				lhs = st.Lhs
+			}
+		}
+		if call == nil {
+			continue
+		}
+		cal := core.Callee(info, call)
+		if cal == nil {
+			continue
+		}
+		h := c.P.ByObj[cal.Origin()]
+		if h == nil || h.Pkg != f.Pkg || h.Decl.Body == nil {
+			continue
+		}
+		hs := h.Obj.Type().(*types.Signature)
+		var cornerParam types.Object
+		for i, a := range call.Args {
+			if i < hs.Params().Len() && isCornerField(a) {
+				cornerParam = hs.Params().At(i)
+			}
+		}
+		if cornerParam == nil {
+			continue
+		}
+		hh, tl, bl, fm := cornerArmsIn(info, h.Decl.Body.List, func(e ast.Expr) bool { return core.ObjOf(info, e) == cornerParam })
+		if hh == nil {
+			continue
+		}
+		cornerHelpers[s] = &cornerHelperBinding{call: call, lhs: lhs, helper: h}
+		return s, tl, bl, fm + " (in " + h.Name + ")"
+	}
+	return nil, nil, nil, form
+}
+
+func cornerArmsIn(info *types.Info, stmts []ast.Stmt, isCorner func(ast.Expr) bool) (holder ast.Stmt, topLeft, bottomLeft []ast.Stmt, form string) {
 	constName := func(e ast.Expr) string {
 		if o := core.ObjOf(info, e); o != nil {
 			if _, ok := o.(*types.Const); ok {
@@ -251,7 +308,7 @@ func cornerArms(c *core.Ctx, f *core.Func) (holder ast.Stmt, topLeft, bottomLeft
 		}
 		return ""
 	}
-	for _, s := range f.Decl.Body.List {
+	for _, s := range stmts {
 		switch st := s.(type) {
 		case *ast.SwitchStmt:
 			if st.Tag == nil || !isCorner(st.Tag) {
@@ -331,6 +388,31 @@ func evalWithCornerSwitch(c *core.Ctx, f *core.Func) *armEnv {
 	holder, tl, bl, _ := cornerArms(c, f)
 	for _, s := range f.Decl.Body.List {
 		if holder != nil && s == holder {
+			if hb := cornerHelpers[s]; hb != nil && tl != nil && bl != nil {
+				// the arm of the helper, with its parameters standing for the arguments; what it returns is
+				// assigned to the left-hand sides of the call
+				for name, arm := range map[string][]ast.Stmt{"TopLeft": tl, "BottomLeft": bl} {
+					a := env.clone()
+					hs := hb.helper.Obj.Type().(*types.Signature)
+					for i, arg := range hb.call.Args {
+						if i < hs.Params().Len() {
+							if v, ok := a.eval(arg); ok {
+								a.vars[hs.Params().At(i)] = v
+							}
+						}
+					}
+					a.run(arm)
+					if len(arm) > 0 {
+						if ret, ok := arm[len(arm)-1].(*ast.ReturnStmt); ok && len(ret.Results) == len(hb.lhs) {
+							for i := range hb.lhs {
+								a.assign(hb.lhs[i], ret.Results[i])
+							}
+						}
+					}
+					out.arms[name] = a
+				}
+				continue
+			}
 			if tl != nil && bl != nil {
 				a := env.clone()
 				a.run(tl)
